@@ -287,8 +287,8 @@ Section Main.
   Definition K4 f d x ts := chain cont5 (bin_step (r5 f d)) (S (length ts)) x ts.
   Definition K3 f d x ts := chain cont4 (bin_step (r4 f d)) (S (length ts)) x ts.
   Definition K2 f d x ts := cmp_tail md df (PE f) (PC f) d x ts.
-  Definition K1 f d x ts := chain cont1 (bin_step (r2 f d)) (S (length ts)) x ts.
-  Definition K0 f d x ts := chain cont0 (bin_step (r1 f d)) (S (length ts)) x ts.
+  Definition K1 f d x ts := chain cont1 (kw_step (r2 f d)) (S (length ts)) x ts.
+  Definition K0 f d x ts := chain cont0 (kw_step (r1 f d)) (S (length ts)) x ts.
 
   Definition rg (g : nat) f d ts : res :=
     match g with 0 => r0 f d ts | 1 => r1 f d ts | 2 => r2 f d ts | 3 => r3 f d ts | 4 => r4 f d ts
@@ -393,6 +393,17 @@ Section Main.
   Proof.
     intros isop operand xL xR optok toksR rest R Hop Hr HK.
     cbn [chain cur]. rewrite Hop. unfold bin_step at 1. cbn [cur advance]. rewrite Hr. cbn [bind].
+    eapply chain_mono; [exact HK|]. cbn [length]. rewrite app_length. lia.
+  Qed.
+
+  (* the same for the AND / OR loops, which store the upper-cased spelling of the keyword *)
+  Lemma chain_kw_ext : forall isop operand xL xR optok toksR rest R,
+      isop optok = true -> operand (toksR ++ rest) = Val (xR, rest) ->
+      chain isop (kw_step operand) (S (length rest)) (GBinary xL (upper (lit optok)) (Some xR) false) rest = Val R ->
+      chain isop (kw_step operand) (S (length (optok :: toksR ++ rest))) xL (optok :: toksR ++ rest) = Val R.
+  Proof.
+    intros isop operand xL xR optok toksR rest R Hop Hr HK.
+    cbn [chain cur]. rewrite Hop. unfold kw_step at 1. cbn [cur advance]. rewrite Hr. cbn [bind].
     eapply chain_mono; [exact HK|]. cbn [length]. rewrite app_length. lia.
   Qed.
 
@@ -686,7 +697,7 @@ Section Main.
     intros R HK; rewrite <- app_assoc; cbn [app];
     apply (use_child l IHl g); [assumption|side|side|reflexivity|];
     cbn [gl Kg] in *; unfold K0, K1, K3, K4, K5 in *;
-    eapply chain_bin_ext; [reflexivity| |exact HK];
+    first [eapply chain_bin_ext; [reflexivity| |exact HK] | eapply chain_kw_ext; [reflexivity| |exact HK]];
     match goal with Hst : stops _ (cur _) = true |- _ =>
       apply (use_child_direct r0 IHr (S g)); [assumption|side|side|stops_from Hst|stops_from Hst] end.
 
